@@ -48,7 +48,8 @@ var typeVec = []uint64{2, 1, 5, 0, 4, 3}
 var modeVec = []uint64{0o644, 0o755, 0, math.MaxUint32, 0o644 | 0x1000, 0o444}
 var dataVec = [][]byte{[]byte("x"), {}, bytes.Repeat([]byte{0xAB}, 300), []byte("hello world"), {0}}
 var secVec = []int64{1, 0, -1, 1 << 31, math.MaxInt64, math.MinInt64}
-var nanoVec = []uint32{0, 999999999, 1, 123456789, 5, 6}
+// nanoseconds are a fixed32 on the wire: the full unsigned range decodes (values from 2^31 up are not negative)
+var nanoVec = []uint32{999999999, math.MaxUint32, 0, 1 << 31, 1, 123456789}
 
 type concrete struct {
 	typ, filesize, hashtype, fanout, mode *uint64
@@ -58,7 +59,7 @@ type concrete struct {
 	hasMtime                              bool
 	sec                                   int64
 	hasNano                               bool
-	nano                                  uint32
+	nano                                  int64 // the decoded value as such: no truncation on either side of the comparison
 }
 
 func appendVarint(b []byte, v uint64, nm bool) []byte {
@@ -174,17 +175,17 @@ func serialize(toks []CTok, vec int) ([]byte, *concrete) {
 				case "sn":
 					putSec()
 					putNano()
-					c.hasNano, c.nano = true, nano
+					c.hasNano, c.nano = true, int64(nano)
 				case "ns":
 					putNano()
 					putSec()
-					c.hasNano, c.nano = true, nano
+					c.hasNano, c.nano = true, int64(nano)
 				case "sun":
 					putSec()
 					m = protowire.AppendTag(m, 9, protowire.BytesType)
 					m = protowire.AppendBytes(m, []byte("??"))
 					putNano()
-					c.hasNano, c.nano = true, nano
+					c.hasNano, c.nano = true, int64(nano)
 				case "bad":
 					m = append(m, 0x08, 0x80)
 				}
@@ -236,7 +237,7 @@ func fromOurs(n data.UnixFSData) *concrete {
 		mt := n.FieldMtime().Must()
 		c.hasMtime, c.sec = true, mt.FieldSeconds().Int()
 		if mt.FieldFractionalNanoseconds().Exists() {
-			c.hasNano, c.nano = true, uint32(mt.FieldFractionalNanoseconds().Must().Int())
+			c.hasNano, c.nano = true, mt.FieldFractionalNanoseconds().Must().Int()
 		}
 	}
 	return c
@@ -270,7 +271,7 @@ func fromRef(d *pb.Data) *concrete {
 			c.sec = *d.Mtime.Seconds
 		}
 		if d.Mtime.Nanos != nil {
-			c.hasNano, c.nano = true, *d.Mtime.Nanos
+			c.hasNano, c.nano = true, int64(*d.Mtime.Nanos)
 		}
 	}
 	return c
@@ -747,7 +748,7 @@ func runCodecX(cx *CodecXCase, tr *Tr) error {
 						if r.Intn(2) == 0 {
 							ns := int32(r.Intn(1000000000))
 							builder.FractionalNanoseconds(tb, ns)
-							want.hasNano, want.nano = true, uint32(ns)
+							want.hasNano, want.nano = true, int64(uint32(ns))
 						}
 					})
 				}
@@ -783,6 +784,9 @@ func runCodecX(cx *CodecXCase, tr *Tr) error {
 			var m []byte
 			sec := []int64{0, 1, -1, 1 << 31, math.MaxInt64, math.MinInt64}[r.Intn(6)]
 			nano := uint32(r.Intn(1000000000))
+			if r.Intn(4) == 0 {
+				nano = []uint32{1 << 31, math.MaxUint32, 1<<31 + 5}[r.Intn(3)] // fixed32 values with the top bit set
+			}
 			hasNano := r.Intn(2) == 0
 			order := r.Intn(2)
 			put := func(which int) {
@@ -808,7 +812,7 @@ func runCodecX(cx *CodecXCase, tr *Tr) error {
 				same := ut.FieldSeconds().Int() == rt.GetSeconds() && ut.FieldSeconds().Int() == sec
 				same = same && ut.FieldFractionalNanoseconds().Exists() == (rt.Nanos != nil) && (rt.Nanos != nil) == hasNano
 				if hasNano && same {
-					same = uint32(ut.FieldFractionalNanoseconds().Must().Int()) == rt.GetNanos() && rt.GetNanos() == nano
+					same = ut.FieldFractionalNanoseconds().Must().Int() == int64(rt.GetNanos()) && rt.GetNanos() == nano
 				}
 				ev["same"] = same
 			}
